@@ -506,7 +506,11 @@ theorem eventsRun_weak (C : TQContract) (fuel : Nat) (s : State) (h : Good C s) 
   cases hr : runInternal fuel (emit { s with cbcount := 0 } .runBegin) with
   | mk s1 rc =>
     rw [hr] at h1
-    exact weak_ignored h1 _ (ignored_ret rc) rfl rfl rfl rfl rfl rfl rfl rfl
+    dsimp only at h1 ⊢
+    by_cases hf1 : s1.fault = true
+    · rw [if_pos hf1]; exact h1
+    · rw [if_neg hf1]
+      exact weak_ignored h1 _ (ignored_ret rc) rfl rfl rfl rfl rfl rfl rfl rfl
 
 theorem stepTop_weak (C : TQContract) (fuel : Nat) (s : State) (t : Top) (h : Weak C s) : Weak C (stepTop fuel s t) := by
   cases t with
